@@ -1,5 +1,7 @@
 package main
 
+import "strings"
+
 // Property → rule mapping (DESIGN.md §3). A rule is attached to a property
 // only when it is a necessary condition of it; Filter restricts the instances
 // reported under the property to those anchored in the property's code.
@@ -27,6 +29,23 @@ func tag(t string) func(Obligation) bool {
 
 func notTag(t string) func(Obligation) bool {
 	return func(o Obligation) bool { return !o.hasTag(t) }
+}
+
+// keyPrefix selects obligations whose construct key starts with one of the prefixes.
+func keyPrefix(ps ...string) func(Obligation) bool {
+	return func(o Obligation) bool {
+		for _, p := range ps {
+			if strings.HasPrefix(o.Key, p) {
+				return true
+			}
+		}
+		return false
+	}
+}
+
+// keyHas selects obligations whose construct key contains the substring.
+func keyHas(sub string) func(Obligation) bool {
+	return func(o Obligation) bool { return strings.Contains(o.Key, sub) }
 }
 
 func anyTag(ts ...string) func(Obligation) bool {
